@@ -761,6 +761,11 @@ class Evaluator:
                 p = p['e']
             elif k in ('DropTemps', 'Use', 'AddrOf') or (k == 'Unary' and p.get('op') == 'Deref'):
                 p = p['e']
+            elif k == 'Index':
+                ix = self.ev(p['i'], env, body, depth)
+                self.emit('assign', place, body, local=self.place_root(p['e']), name=self.place_text(p['e']) + '[' + T.show(ix) + ']',
+                          fields=('[]',), value=v)
+                return
             else:
                 return
         lid = p['id']
@@ -904,7 +909,33 @@ class Evaluator:
         recv = self.ev(e['recv'], env, body, depth)
         args = [recv] + [self.ev(a, env, body, depth) for a in e['args']]
         callee = e.get('callee') or ('?::' + e['name'])
+        adj = e['recv'].get('adj') or []
+        if any('Mut' in a and 'Borrow' in a for a in adj) or e.get('recv_ty', '').startswith('&mut'):
+            self.emit('mutcall', e, body, callee=callee, args=tuple(args), target=self.place_root(e['recv']),
+                      place=self.place_text(e['recv']))
+        elif e.get('callee_local'):
+            self.emit('call', e, body, callee=callee, args=tuple(args))
         return self.call_fn(callee, e.get('targs', []), args, e, body, depth)
+
+    def place_text(self, e):
+        parts = []
+        while True:
+            k = e.get('k')
+            if k == 'Path':
+                parts.append(e.get('name', '?'))
+                break
+            if k == 'Field':
+                parts.append(e['name'])
+                e = e['e']
+            elif k in ('Index', 'DropTemps', 'Use', 'AddrOf') or (k == 'Unary' and e.get('op') == 'Deref'):
+                e = e['e']
+            elif k == 'MethodCall':
+                parts.append(e['name'] + '()')
+                e = e['recv']
+            else:
+                parts.append('?')
+                break
+        return '.'.join(reversed(parts))
 
     def iterish(self, t):
         t = T.unroot(t)
@@ -1054,6 +1085,8 @@ class Evaluator:
 
         # --- crate-local code
         b = self.crate.body(path)
+        if b is not None and self.has_loop(b):
+            b = None    # a havocked loop gives no usable value: keep the call opaque (the callee is analysed on its own)
         if b is not None and path not in NOINLINE and depth < self.max_depth and b.kind in ('Fn', 'AssocFn'):
             # trait *declarations* with default bodies stay opaque: dispatch is dynamic
             if b.raw.get('trait') and not b.raw.get('impl'):
@@ -1066,6 +1099,13 @@ class Evaluator:
         if path in NOINLINE and node is not None:
             self.trace.append(('call', node, (path, tuple(args))))
         return T.root(T.call(path, *[T.unroot(a) for a in args]))
+
+    def has_loop(self, b):
+        if not hasattr(self, '_loopcache'):
+            self._loopcache = {}
+        if b.path not in self._loopcache:
+            self._loopcache[b.path] = any(n.get('k') == 'Loop' for n in b.walk())
+        return self._loopcache[b.path]
 
     def unwrap_ret(self, v):
         if isinstance(v, tuple) and v and v[0] == 'ret':
